@@ -25,6 +25,12 @@ impl<K: PartialEq, V> SmallMap<K, V> {
         self.0.push((k, v));
     }
 
+    /// Adds an entry without looking for an earlier one with the same key
+    /// (`get` keeps returning the earliest).
+    pub fn push(&mut self, k: K, v: V) {
+        self.0.push((k, v));
+    }
+
     pub fn get<Q>(&self, q: &Q) -> Option<&V>
     where
         K: Borrow<Q>,
